@@ -2314,11 +2314,14 @@ def main(tier, replay=None):
     outs = [None] * len(cases)
 
     ext_params = sorted(set(str(c.param) for c in cases if c.dom == "ext"))
+    # hang / crash caps shared by all harness processes of this run (see c15_common.h): an append-only event file
+    hang_state = os.path.join(vf.mkdir(os.path.join(vf.ROOT, "build", "tmp")), "c15-hang-%d.state" % os.getpid())
+    open(hang_state, "w").close()
 
     def run_exe(k):
         ids = by_exe[k]
         pre = "".join("ext %s info 0\n" % prm for prm in ext_params) if k == "fields" else ""
-        rc, out, err = vf.run_lines(exes[k], pre + "".join(cases[i].line() + "\n" for i in ids), timeout=1500)
+        rc, out, err = _run_lines_env(exes[k], pre + "".join(cases[i].line() + "\n" for i in ids), timeout=1500, env_extra={"C15_HANG_STATE": hang_state})
         if pre and len(out) >= len(ext_params):
             for prm, l in zip(ext_params, out[:len(ext_params)]):
                 if l.startswith("INFO "):
@@ -2339,6 +2342,11 @@ def main(tier, replay=None):
                 continue
             for i, l in zip(ids, out):
                 outs[i] = l
+    try:
+        chk.cov["hang_events"] = open(hang_state).read().split("\n")[:40]
+        os.remove(hang_state)
+    except OSError:
+        pass
     phase["implementation_runs"] = round(_time.time() - t0, 1); t0 = _time.time()
     # 5. the model
     mlines, mids = [], []
@@ -2387,7 +2395,7 @@ def main(tier, replay=None):
     ncorr = 0
     tie_by = {}
     judged_by = {}
-    cpu_retries = {}
+    stopped_forms, stopped_streams, excused_by = {}, {}, {}
     dist_dom, dist_pat = {}, {}
     for i, c in enumerate(cases):
         if outs[i] is None:
@@ -2404,26 +2412,21 @@ def main(tier, replay=None):
         d.update({"exe": c.exe, "dests": c.dests, "reads": c.reads})
         if i % 4999 == 0:
             s = dict(d); s["impl"] = outs[i]; chk.sample(s)
-        if po is None and outs[i].strip() == "NOT-RUN-AFTER-TIMEOUTS":
-            chk.fail_input(c.site, klass, d, "a result", "not run", "not run: three earlier cases of this operation did not return within their CPU budget in this harness process")
+        if po is None and outs[i].strip() == "FORM-DISABLED":
+            # the call form had a confirmed "does not return" (or four crashes) earlier in this run, in whatever stream: not driven any more
+            stopped_forms[c.dom + " " + c.op] = stopped_forms.get(c.dom + " " + c.op, 0) + 1
+            judged_by[c.exe] -= 1
+            excused_by[c.exe] = excused_by.get(c.exe, 0) + 1
             continue
-        if po is None and outs[i].rstrip().endswith(" CRASH 24") and cpu_retries.get(c.site, 0) >= 2:
-            chk.fail_input(c.site, klass, d, "a result", "does not return", "does not return within its CPU budget (two cases of this site were already re-run alone with the large budget) :: " + outs[i])
+        if po is None and outs[i].strip() == "STREAM-STOPPED":
+            stopped_streams[c.exe] = stopped_streams.get(c.exe, 0) + 1
+            judged_by[c.exe] -= 1
             continue
-        if po is None and outs[i].rstrip().endswith(" CRASH 24"):
-            cpu_retries[c.site] = cpu_retries.get(c.site, 0) + 1
-            # SIGXCPU: the case used up its CPU budget.  Re-run that one case alone with a six times larger budget before
-            # calling it a call that does not return (CPU time does not depend on the machine load).
-            rc2, o2, e2 = _run_lines_env(exes[c.exe], c.line() + "\n", timeout=1500, env_extra={"C15_CPU_BUDGET": "60"})
-            if rc2 == 0 and len(o2) == 1 and " CRASH " not in o2[0]:
-                outs[i] = o2[0]
-                po = parse_out(outs[i], c.n)
-                chk.cov.setdefault("cpu_budget_retries", []).append(c.line()[:200])
-            elif rc2 == 0 and len(o2) == 1 and o2[0].rstrip().endswith(" CRASH 24"):
-                which = "aliased call (%s)" % pat if outs[i].startswith("F ") else "call on distinct objects"
-                chk.fail_input(c.site + ("" if outs[i].startswith("F ") else " (distinct objects)"), klass if outs[i].startswith("F ") else "distinct objects",
-                               d, "a result", "does not return", "%s: does not return within 60 s of CPU time (re-run alone) :: %s" % (which, o2[0]))
-                continue
+        if po is None and outs[i].rstrip().endswith(" CRASH 24 CONFIRMED"):
+            which = "aliased call (%s)" % pat if outs[i].startswith("F ") else "call on distinct objects"
+            chk.fail_input(c.site + ("" if outs[i].startswith("F ") else " (distinct objects)"), "does-not-return", d, "a result", "does not return",
+                           "%s: does not return (10 s of CPU time in its batch, then 30 s re-run alone) :: %s" % (which, outs[i]))
+            continue
         if po is None and " CRASH " in outs[i]:
             sig = outs[i].split(" CRASH ")[1].strip()
             if outs[i].startswith("F "):
@@ -2536,10 +2539,15 @@ def main(tier, replay=None):
         for c in cases:
             gen_by[c.exe] = gen_by.get(c.exe, 0) + 1
         for k, ng in sorted(gen_by.items()):
-            if judged_by.get(k, 0) < 0.98 * ng:
+            if judged_by.get(k, 0) < 0.98 * (ng - excused_by.get(k, 0)):
                 floor_missed.append("harness stream '%s': %d of %d cases judged" % (k, judged_by.get(k, 0), ng))
         if chk.cov.get("completeness_checked") is not True:
             floor_missed.append("completeness obligation (clang AST) not checked")
+    chk.cov["forms_stopped_after_hang_or_crashes"] = stopped_forms
+    chk.cov["streams_stopped_by_hang_cap"] = stopped_streams
+    if stopped_streams:
+        chk.cov.setdefault("inconclusive", []).append("hang cap reached (6 first-stage CPU overruns or 3 confirmed 'does not return' in this run): "
+                                                      "streams stopped, cases not run: %s" % stopped_streams)
     chk.cov["floor_missed"] = floor_missed
     chk.cov.setdefault("inconclusive", [])
     if floor_missed and not chk.cov["inconclusive"]:
